@@ -442,3 +442,302 @@ Proof.
       pose proof (length_join_ge (map print (a :: r)) (print x) (in_map print _ _ Hx)) as Hle.
       fold J in Hle. rewrite Hlen in Hfuel. lia.
 Qed.
+
+Lemma substr_after_sep : forall a c x,
+  substr (a ++ c :: x) (length a + 1) (length (a ++ c :: x)) = Ok x.
+Proof.
+  intros a c x. replace (a ++ c :: x) with ((a ++ [c]) ++ x) by (rewrite <- app_assoc; reflexivity).
+  apply substr_suffix. rewrite app_length. cbn. lia.
+Qed.
+
+(* ---- ParseRef / PkgImportPathAndExpose on a printed reference ---- *)
+
+Lemma print_qualified : forall p n args, p <> [] ->
+  print (TRef p n args) = p ++ dot :: print (TRef [] n args).
+Proof.
+  intros p n args Hp. cbn [print]. unfold head_str.
+  destruct p; [congruence|]. cbn [is_nil app]. rewrite <- !app_assoc. reflexivity.
+Qed.
+
+Lemma cut_bracket_print : forall p n args, wf (TRef p n args) ->
+  cut_bracket (print (TRef p n args)) = Ok (head_str p n).
+Proof.
+  intros p n args Hwf. apply wf_inv in Hwf. destruct Hwf as (Hp & Hne & Hn & Hargs).
+  pose proof (head_plain p n Hp Hn) as Hh.
+  pose proof (Forall_plain_notin lbr _ lbr_not_plain Hh) as Hnl.
+  unfold cut_bracket. destruct args as [|a r].
+  - rewrite print_leaf, index_byte_none by exact Hnl. reflexivity.
+  - rewrite print_args, index_byte_app by exact Hnl.
+    pose proof (head_nonempty p n Hne) as H0. apply Nat.ltb_lt in H0. rewrite H0.
+    apply substr_prefix.
+Qed.
+
+Lemma last_index_sub_le : forall needle s i, last_index_sub needle s = Some i -> i <= length s.
+Proof.
+  induction s as [|x r IH]; intros i H; cbn in H; [discriminate|].
+  destruct (last_index_sub needle r) as [j|].
+  - inversion H; subst. specialize (IH j eq_refl). cbn. lia.
+  - destruct (has_prefix needle (x :: r)); [|discriminate]. inversion H. cbn. lia.
+Qed.
+
+Lemma import_go_path_total : forall p, exists g, import_go_path p = Ok g.
+Proof.
+  intros p. unfold import_go_path. destruct (last_index_sub vendor_seg p) as [i|] eqn:E; [|eauto].
+  destruct (0 <? i); [|eauto].
+  apply last_index_sub_le in E. destruct (substr_ok_iff p i (length p) E (le_n _)) as (r & Hr & _). eauto.
+Qed.
+
+Lemma import_go_path_plain : forall p, last_index_sub vendor_seg p = None -> import_go_path p = Ok p.
+Proof. intros p H. unfold import_go_path. rewrite H. reflexivity. Qed.
+
+Theorem split_agree : forall p n args, wf (TRef p n args) -> p <> [] ->
+  parse_ref (print (TRef p n args)) = Ok (Some (p, print (TRef [] n args))) /\
+  exists g, import_go_path p = Ok g /\
+            pkg_import_path_and_expose (print (TRef p n args)) = Ok (g, n).
+Proof.
+  intros p n args Hwf Hpne. pose proof Hwf as Hwf0.
+  apply wf_inv in Hwf. destruct Hwf as (Hp & Hne & Hn & Hargs).
+  assert (Hnd : ~ In dot n).
+  { intros Hin. rewrite Forall_forall in Hn. destruct (Hn _ Hin) as [_ H]. apply H. reflexivity. }
+  assert (Hh : head_str p n = p ++ dot :: n).
+  { unfold head_str. destruct p; [congruence|]. cbn [is_nil]. rewrite <- app_assoc. reflexivity. }
+  assert (H0 : (0 <? length p) = true) by (apply Nat.ltb_lt; destruct p; [congruence|cbn; lia]).
+  split.
+  - unfold parse_ref. rewrite cut_bracket_print by exact Hwf0. cbn [bind].
+    rewrite Hh, last_index_byte_app by exact Hnd. rewrite H0.
+    rewrite print_qualified by exact Hpne.
+    rewrite substr_prefix. cbn [bind].
+    replace (p ++ dot :: print (TRef [] n args)) with ((p ++ [dot]) ++ print (TRef [] n args))
+      by (rewrite <- app_assoc; reflexivity).
+    rewrite substr_suffix by (rewrite app_length; cbn; lia). reflexivity.
+  - destruct (import_go_path_total p) as (g & Hg). exists g. split; [exact Hg|].
+    unfold pkg_import_path_and_expose. rewrite cut_bracket_print by exact Hwf0. cbn [bind].
+    rewrite Hh, last_index_byte_app by exact Hnd. rewrite H0.
+    rewrite substr_prefix. cbn [bind].
+    replace (p ++ dot :: n) with ((p ++ [dot]) ++ n) by (rewrite <- app_assoc; reflexivity).
+    rewrite substr_suffix by (rewrite app_length; cbn; lia). cbn [bind].
+    rewrite Hg. reflexivity.
+Qed.
+
+(* both functions cut at the same place on EVERY string, and Ref.String() gives the string back *)
+Theorem split_agree_any : forall s,
+  (forall p n, parse_ref s = Ok (Some (p, n)) ->
+     ref_string (p, n) = s /\
+     exists g e, pkg_import_path_and_expose s = Ok (g, e) /\ import_go_path p = Ok g /\
+                 cut_bracket s = Ok (p ++ dot :: e)) /\
+  (parse_ref s = Ok None -> exists b, cut_bracket s = Ok b /\ pkg_import_path_and_expose s = Ok ([], b)).
+Proof.
+  intros s. unfold parse_ref, pkg_import_path_and_expose.
+  assert (Hcut : exists b rest, cut_bracket s = Ok b /\ s = b ++ rest).
+  { unfold cut_bracket. destruct (index_byte lbr s) as [i|] eqn:E.
+    - destruct (0 <? i).
+      + apply index_byte_spec in E. destruct E as (a & b & -> & <- & _).
+        exists a, (lbr :: b). split; [apply substr_prefix|reflexivity].
+      + exists s, []. rewrite app_nil_r. auto.
+    - exists s, []. rewrite app_nil_r. auto. }
+  destruct Hcut as (b & rest & Hb & Hs). rewrite Hb. cbn [bind].
+  destruct (last_index_byte dot b) as [i|] eqn:E.
+  2:{ split; [discriminate|]. intros _. eauto. }
+  destruct (0 <? i) eqn:E0.
+  2:{ split; [discriminate|]. intros _. eauto. }
+  split; [|intros H; exfalso].
+  - intros p n H.
+    apply last_index_byte_spec in E. destruct E as (a & e & -> & <- & _).
+    subst s. rewrite <- app_assoc in H. rewrite substr_prefix in H. cbn [bind app] in H.
+    rewrite substr_after_sep in H. cbn [bind] in H.
+    inversion H; subst p n. clear H. split.
+    + unfold ref_string. cbn [fst snd]. rewrite <- !app_assoc. reflexivity.
+    + rewrite substr_prefix. cbn [bind].
+      rewrite substr_after_sep. cbn [bind].
+      destruct (import_go_path_total a) as (g & Hg). rewrite Hg. cbn [bind].
+      exists g, e. repeat split; reflexivity.
+  - apply last_index_byte_spec in E. destruct E as (a & e & -> & <- & _).
+    subst s. rewrite <- app_assoc in H. rewrite substr_prefix in H. cbn [bind app] in H.
+    rewrite substr_after_sep in H. cbn [bind] in H. discriminate.
+Qed.
+
+(* ---- rendering through the naming system ---- *)
+
+Section NamerProofs.
+  Variable tracker : Type.
+  Variable add : tracker -> bytes -> tracker.
+  Variable local_name : tracker -> bytes -> bytes.
+  Variable self : bytes.
+
+  Notation visit := (visit tracker add local_name self).
+  Notation walk := (walk tracker add local_name self).
+  Notation walk_list := (walk_list tracker add local_name self).
+  Notation process_name := (process_name tracker add local_name self).
+  Notation namer_name := (namer_name tracker add local_name self).
+  Notation snippet_id := (snippet_id tracker add local_name self).
+
+  (* the one thing asked of the tracker: a name handed out for a path is not changed by later additions *)
+  Hypothesis stable : forall tr p qs,
+    local_name (fold_left add qs (add tr p)) p = local_name (add tr p) p.
+
+  Definition ren (tr : tracker) : bytes -> bytes := ren_paths (local_name tr) self.
+
+  Lemma walk_eq : forall p n args tr,
+    walk (TRef p n args) tr =
+    let '(p', tr1) := visit p tr in
+    let '(args', tr2) := walk_list args tr1 in
+    (TRef p' n args', tr2).
+  Proof. reflexivity. Qed.
+
+  Lemma visit_spec : forall p tr,
+    visit p tr = (if is_foreign self p then local_name (add tr p) p else [],
+                  fold_left add (if is_foreign self p then [p] else []) tr).
+  Proof.
+    intros p tr. unfold TypeRef.visit, is_foreign.
+    destruct p as [|c p]; cbn [is_nil negb andb]; [reflexivity|].
+    destruct (bytes_eqb (c :: p) self); reflexivity.
+  Qed.
+
+  Definition walk_ok (t : tref) : Prop := forall tr,
+    snd (walk t tr) = fold_left add (foreign_pre self t) tr /\
+    forall more, fst (walk t tr) = map_paths (ren (fold_left add more (snd (walk t tr)))) t.
+
+  Lemma walk_list_spec : forall l, Forall walk_ok l -> forall tr,
+    snd (walk_list l tr) = fold_left add (flat_map (foreign_pre self) l) tr /\
+    forall more, fst (walk_list l tr)
+                 = map (map_paths (ren (fold_left add more (snd (walk_list l tr))))) l.
+  Proof.
+    induction l as [|a r IH]; intros Hl tr.
+    - cbn. auto.
+    - inversion Hl as [|? ? Ha Hr]; subst. cbn [TypeRef.walk_list flat_map].
+      destruct (Ha tr) as [Ha1 Ha2]. destruct (walk a tr) as [a' tra] eqn:Ea. cbn [fst snd] in Ha1, Ha2.
+      destruct (IH Hr tra) as [Hr1 Hr2]. destruct (walk_list r tra) as [r' trr] eqn:Er.
+      cbn [fst snd] in Hr1, Hr2 |- *. split.
+      + rewrite fold_left_app, <- Ha1. exact Hr1.
+      + intros more. cbn [map]. f_equal; [|apply Hr2].
+        rewrite (Ha2 (flat_map (foreign_pre self) r ++ more)).
+        rewrite fold_left_app, <- Hr1. reflexivity.
+  Qed.
+
+  Lemma walk_spec : forall t, walk_ok t.
+  Proof.
+    induction t as [p n args IH] using tref_ind'. intros tr.
+    rewrite walk_eq, visit_spec.
+    set (fp := if is_foreign self p then [p] else []).
+    destruct (walk_list_spec args IH (fold_left add fp tr)) as [H1 H2].
+    destruct (walk_list args (fold_left add fp tr)) as [args' tr2] eqn:E.
+    cbn [fst snd] in H1, H2 |- *. split.
+    - cbn [foreign_pre]. fold fp. rewrite fold_left_app. exact H1.
+    - intros more. cbn [map_paths]. rewrite <- (H2 more). f_equal.
+      unfold ren, ren_paths, fp, is_foreign in *.
+      destruct (is_nil p); cbn [negb andb]; [reflexivity|].
+      destruct (bytes_eqb p self); cbn [negb]; [reflexivity|].
+      rewrite H1. cbn [fold_left]. rewrite <- fold_left_app. symmetry. apply stable.
+  Qed.
+
+  Lemma print_nonempty : forall p n args, n <> [] -> print (TRef p n args) <> [].
+  Proof.
+    intros p n args Hn H. cbn [print] in H. apply app_eq_nil in H. destruct H as [H _].
+    unfold head_str in H. apply app_eq_nil in H. destruct H as [_ H]. contradiction.
+  Qed.
+
+  Lemma wf_drop_path : forall p n args, wf (TRef p n args) -> wf (TRef [] n args).
+  Proof.
+    intros p n args H. apply wf_inv in H. apply wf_inv. destruct H as (_ & H2 & H3 & H4).
+    repeat split; auto.
+  Qed.
+
+  (* processName on the printed  Name[args]  part *)
+  Lemma process_name_spec : forall n args tr, wf (TRef [] n args) ->
+    let tr' := fold_left add (flat_map (foreign_pre self) args) tr in
+    exists tn, process_name true tr (print (TRef [] n args)) = Ok (tn, tr') /\
+               forall more, tn = print (map_paths (ren (fold_left add more tr')) (TRef [] n args)).
+  Proof.
+    intros n args tr Hwf tr'. unfold TypeRef.process_name, parse_type_ref.
+    rewrite roundtrip by (try exact Hwf; lia). cbn [bind t_args t_name].
+    destruct args as [|a r].
+    - cbn [is_nil]. exists n. split; [reflexivity|]. intros more.
+      cbn [map_paths map]. rewrite print_leaf. unfold ren, ren_paths. cbn [is_nil]. reflexivity.
+    - cbn [is_nil]. destruct (walk_spec (TRef [] n (a :: r)) tr) as [H1 H2].
+      destruct (walk (TRef [] n (a :: r)) tr) as [t' trw] eqn:E. cbn [fst snd] in H1, H2.
+      assert (Htr : trw = tr').
+      { rewrite H1. cbn [foreign_pre]. unfold is_foreign. cbn [is_nil negb andb app]. reflexivity. }
+      exists (print t'). split; [rewrite Htr; reflexivity|].
+      intros more. rewrite (H2 more), Htr. reflexivity.
+  Qed.
+
+  Theorem rewrite_spec : forall tr p n args, wf (TRef p n args) -> p <> [] ->
+    let tr' := fold_left add (foreign self (TRef p n args)) tr in
+    snippet_id true tr (print (TRef p n args)) =
+    Ok ((if bytes_eqb p self then [] else local_name tr' p ++ [dot])
+          ++ print (map_paths (ren tr') (TRef [] n args)), tr').
+  Proof.
+    intros tr p n args Hwf Hp tr'.
+    destruct (split_agree p n args Hwf Hp) as [Href _].
+    unfold TypeRef.snippet_id. rewrite Href. cbn [bind].
+    unfold TypeRef.namer_name.
+    destruct (process_name_spec n args tr (wf_drop_path _ _ _ Hwf)) as (tn & Hpn & Htn).
+    rewrite Hpn. cbn [bind].
+    unfold tr', foreign. cbn [t_args t_path]. unfold is_foreign.
+    assert (Hnil : is_nil p = false) by (destruct p; [congruence|reflexivity]).
+    rewrite Hnil. cbn [negb andb].
+    destruct (bytes_eqb p self) eqn:Eself; cbn [negb].
+    - rewrite app_nil_r. cbn [app].
+      assert (Hne0 : tn <> []).
+      { rewrite (Htn []). cbn [map_paths]. apply print_nonempty.
+        apply wf_inv in Hwf. destruct Hwf as (_ & Hn & _). exact Hn. }
+      assert (Hne : is_nil tn = false) by (destruct tn; [congruence|reflexivity]).
+      rewrite Hne. cbn [negb]. rewrite (Htn []) at 1. reflexivity.
+    - rewrite fold_left_app. cbn [fold_left].
+      rewrite (Htn [p]). cbn [fold_left]. rewrite <- app_assoc. reflexivity.
+  Qed.
+
+  (* when the package got a non-empty import name the result is the whole reference with renamed paths *)
+  Corollary rewrite_spec_print : forall tr p n args, wf (TRef p n args) -> p <> [] ->
+    let tr' := fold_left add (foreign self (TRef p n args)) tr in
+    (bytes_eqb p self = true \/ local_name tr' p <> []) ->
+    snippet_id true tr (print (TRef p n args)) = Ok (print (map_paths (ren tr') (TRef p n args)), tr').
+  Proof.
+    intros tr p n args Hwf Hp tr' Hname. unfold tr'. rewrite rewrite_spec by assumption. fold tr'.
+    f_equal. f_equal. cbn [map_paths].
+    assert (Hnil : is_nil p = false) by (destruct p; [congruence|reflexivity]).
+    destruct (bytes_eqb p self) eqn:E.
+    - unfold ren at 3, ren_paths. rewrite Hnil, E. unfold ren at 1, ren_paths. cbn [is_nil]. reflexivity.
+    - destruct Hname as [H|H]; [discriminate|].
+      assert (Hr : ren tr' p = local_name tr' p) by (unfold ren, ren_paths; rewrite Hnil, E; reflexivity).
+      rewrite Hr. rewrite (print_qualified (local_name tr' p)) by exact H.
+      unfold ren at 1, ren_paths. cbn [is_nil]. rewrite <- app_assoc. reflexivity.
+  Qed.
+
+  (* exactly the other packages: which paths [foreign] lists *)
+  Lemma foreign_pre_iff : forall t q,
+    In q (foreign_pre self t) <-> In q (all_paths t) /\ q <> [] /\ q <> self.
+  Proof.
+    induction t as [p n args IH] using tref_ind'. intros q. cbn [foreign_pre all_paths].
+    assert (Hl : In q (flat_map (foreign_pre self) args) <-> In q (flat_map all_paths args) /\ q <> [] /\ q <> self).
+    { rewrite !in_flat_map. rewrite Forall_forall in IH. split.
+      - intros (x & Hx & Hq). apply (IH x Hx) in Hq. destruct Hq as (H1 & H2 & H3). eauto.
+      - intros ((x & Hx & Hq) & H2 & H3). exists x. split; [exact Hx|]. apply (IH x Hx). auto. }
+    rewrite in_app_iff, Hl. cbn [In]. unfold is_foreign.
+    assert (Hn : forall b : bytes, is_nil b = true <-> b = []) by (destruct b; cbn; split; congruence).
+    destruct (is_nil p) eqn:E1; cbn [negb andb In].
+    - apply Hn in E1. subst p. split; [tauto|]. intros ([H|H] & H2 & H3); [congruence|tauto].
+    - assert (Hpn : p <> []) by (intros ->; discriminate).
+      destruct (bytes_eqb p self) eqn:E2; cbn [negb In].
+      + apply bytes_eqb_spec in E2. subst p. split; [tauto|]. intros ([H|H] & H2 & H3); [congruence|tauto].
+      + assert (Hps : p <> self) by (intros ->; rewrite bytes_eqb_refl in E2; discriminate).
+        split; [intros [[->|[]]|H]; tauto|]. intros ([H|H] & H2 & H3); [left; left; exact H|tauto].
+  Qed.
+
+  Lemma foreign_iff : forall t q,
+    In q (foreign self t) <-> In q (all_paths t) /\ q <> [] /\ q <> self.
+  Proof.
+    intros [p n args] q. rewrite <- foreign_pre_iff. unfold foreign. cbn [t_args t_path foreign_pre].
+    rewrite !in_app_iff. tauto.
+  Qed.
+
+  (* if the tracker's set of registered paths grows by exactly the added path ... *)
+  Lemma registered_fold : forall (paths : tracker -> list bytes),
+    (forall tr p q, In q (paths (add tr p)) <-> q = p \/ In q (paths tr)) ->
+    forall qs tr q, In q (paths (fold_left add qs tr)) <-> In q qs \/ In q (paths tr).
+  Proof.
+    intros paths Hadd. induction qs as [|x qs IH]; intros tr q; cbn [fold_left In].
+    - tauto.
+    - rewrite IH, Hadd. intuition congruence.
+  Qed.
+End NamerProofs.
